@@ -507,6 +507,10 @@ def build_description(rng):
                     dus.append(pdu)
                     units.append({"kind": kind, "payload": payload})
             last_pn = pn
+            if rng.random() < 0.15:
+                # the sequence header repeated between pictures: numbering and offsets carry on across it
+                dus.append(copy.deepcopy(hdr))
+                units.append({"kind": "sequence_header", "fields": fields})
         if rng.random() < 0.3:
             dus.append(copy.deepcopy(hdr))
             units.append({"kind": "sequence_header", "fields": fields})
